@@ -7,6 +7,7 @@ use rlib_treap::{Treap, TreapItem, TreapItemSized, TreapNode};
 const P: u64 = 1_000_003;
 #[derive(Debug, Clone)]
 struct It {
+    key: u64, // strictly increasing along the sequence (never touched by modifications): split_by(|it| it.key < K) is prefix-monotone
     x: u64,
     sm: u64,
     sz: usize,
@@ -15,7 +16,10 @@ struct It {
 }
 impl It {
     fn new(x: u64) -> Self {
-        It { x, sm: x, sz: 1, a: 1, c: 0 }
+        It { key: 0, x, sm: x, sz: 1, a: 1, c: 0 }
+    }
+    fn keyed(x: u64, key: u64) -> Self {
+        It { key, x, sm: x, sz: 1, a: 1, c: 0 }
     }
     fn modify(&mut self, a: u64, c: u64) {
         self.x = (a * self.x + c) % P;
@@ -82,13 +86,18 @@ fn exec(ops: &[Op], heap_only: bool) -> Option<(String, String)> {
     let r = guarded(|| {
         let mut t: Treap<It> = Treap::new();
         let mut v: Vec<u64> = Vec::new();
+        let mut keys: Vec<u64> = Vec::new();
         let mut dir: Option<bool> = None;
         for o in ops {
             match o {
                 Op::Ins(p, x) => {
                     let p = (*p).min(v.len());
-                    t.insert_at(p, It::new(*x));
+                    let lo = if p == 0 { 0 } else { keys[p - 1] };
+                    let hi = if p == v.len() { 1u64 << 62 } else { keys[p] };
+                    let key = lo + (hi - lo) / 2;
+                    t.insert_at(p, It::keyed(*x, key));
                     v.insert(p, *x);
+                    keys.insert(p, key);
                 }
                 Op::Rem(p) => {
                     if v.is_empty() {
@@ -97,6 +106,7 @@ fn exec(ops: &[Op], heap_only: bool) -> Option<(String, String)> {
                     let p = p % v.len();
                     let got = t.remove_at(p).x;
                     let want = v.remove(p);
+                    keys.remove(p);
                     if got != want && !heap_only {
                         return Some((format!("remove_at({}) returned {}", p, got), format!("{}", want)));
                     }
@@ -133,16 +143,37 @@ fn exec(ops: &[Op], heap_only: bool) -> Option<(String, String)> {
                     let (a, b) = std::mem::replace(&mut t, Treap::new()).split_at(k);
                     t = Treap::merge(b, a);
                     v.rotate_left(k);
+                    // keys must stay increasing: re-key the whole sequence through a rebuild
+                    keys.rotate_left(k);
+                    let mut vals: Vec<u64> = t.collect().iter().map(|i| i.x).collect();
+                    let n = vals.len() as u64;
+                    let mut nt: Treap<It> = Treap::new();
+                    for (j, x) in vals.drain(..).enumerate() {
+                        let key = (j as u64 + 1) * ((1u64 << 62) / (n + 1));
+                        nt.insert_at(j, It::keyed(x, key));
+                        keys[j] = key;
+                    }
+                    t = nt;
                 }
                 Op::SplitBy(k) => {
                     let k = if v.is_empty() { 0 } else { k % (v.len() + 1) };
                     // prefix-monotone predicate on a shared counter: true for the first k elements in order
                     // (split_by descends from the root, so use the size of the left part instead)
-                    let (a, b) = std::mem::replace(&mut t, Treap::new()).split_at(k);
+                    // a real split_by with a prefix-monotone predicate on the immutable key (pending modifications still attached)
+                    let bound = if k == v.len() { u64::MAX } else { keys[k] };
+                    let (mut a, mut b) = std::mem::replace(&mut t, Treap::new()).split_by(|it: &It| it.key < bound);
+                    let ga: Vec<u64> = a.collect().iter().map(|i| i.x).collect();
+                    let gb: Vec<u64> = b.collect().iter().map(|i| i.x).collect();
                     let (sa, sb) = (a.size(), b.size());
+                    let (ra, rb) = (a.root().map(|i| i.sm).unwrap_or(0), b.root().map(|i| i.sm).unwrap_or(0));
                     t = Treap::merge(a, b);
-                    if (sa, sb) != (k, v.len() - k) && !heap_only {
-                        return Some((format!("split_at({}) sizes ({}, {})", k, sa, sb), format!("({}, {})", k, v.len() - k)));
+                    if !heap_only {
+                        if ga != v[..k] || gb != v[k..] {
+                            return Some((format!("split_by(first {} elements) = {:?} | {:?}", k, ga, gb), format!("{:?} | {:?}", &v[..k], &v[k..])));
+                        }
+                        if (sa, sb) != (k, v.len() - k) || ra != v[..k].iter().sum::<u64>() % P || rb != v[k..].iter().sum::<u64>() % P {
+                            return Some((format!("split_by(first {}) sizes ({}, {}) aggregates ({}, {})", k, sa, sb, ra, rb), "sizes and folds of the two subsequences".into()));
+                        }
                     }
                 }
             }
